@@ -5,8 +5,8 @@
 static void d_rand(void *p, size_t n) { uint8_t *q = p; for (size_t i = 0; i < n; i++) q[i] = (uint8_t)(CUR * 101 + i * 7 + 3); }
 static void d_kdf(const uint8_t *pw, size_t pl, const uint8_t *s, size_t sl, uint64_t it, uint8_t *k, size_t kl) { (void)it; for (size_t i = 0; i < kl; i++) k[i] = (uint8_t)(pw[pl ? i % pl : 0] ^ s[i % sl] ^ (uint8_t)(i * 3)); }
 static void d_mz(void *p, size_t n) { volatile uint8_t *q = p; for (size_t i = 0; i < n; i++) q[i] = 0; }
-static size_t d_nfc(const char *s, polyseed_str o) { return u_nfc(s, o, CAP); }
-static size_t d_nfkd(const char *s, polyseed_str o) { return u_nfkd(s, o, CAP); }
+static size_t d_nfc(const char *s, polyseed_str o) { if (s >= o && s < o + PSTR) { o[0] = 0; return 0; } memset(o, 0xEE, PSTR); return u_nfc(s, o, CAP); }
+static size_t d_nfkd(const char *s, polyseed_str o) { if (s >= o && s < o + PSTR) { o[0] = 0; return 0; } memset(o, 0xEE, PSTR); return u_nfkd(s, o, CAP); }
 static uint64_t d_time(void) { return R_EPOCH + (uint64_t)(5 + CUR * 300) * R_STEP + 9; }
 static void *d_alloc(size_t n) { void *p = arena[CUR] + apos[CUR]; apos[CUR] += (n + 63) & ~(size_t)63; if (apos[CUR] > ARENA) abort(); memset(p, 0xDD, n); return p; }
 static void d_free(void *p) { (void)p; }
@@ -25,7 +25,8 @@ static void script_h(int HARNESS_, int id, int slot) {
         r = polyseed_decode(ph, (polyseed_coin)id, &l, &s2); T(slot, (uint64_t)r);
         if (r == 0) { polyseed_store(s2, st); Tbuf(slot, st, 32); T(slot, (uint64_t)lang_index(l)); polyseed_free(s2); }
         /* the same phrase with a doubled space: a malformed phrase takes the error path */
-        { char bad[PSTR + 2]; char *sp = strchr(ph, ' '); size_t k = sp ? (size_t)(sp - ph) : 0; memcpy(bad, ph, k + 1); bad[k + 1] = ' '; strcpy(bad + k + 2, ph + k + 1); s2 = NULL; r = polyseed_decode(bad, (polyseed_coin)id, &l, &s2); T(slot, (uint64_t)r); if (r == 0) polyseed_free(s2); }
+        { char bad[PSTR + 2]; char *sp = strchr(ph, ' '); size_t k = sp ? (size_t)(sp - ph) : 0; memcpy(bad, ph, k + 1); bad[k + 1] = ' '; strcpy(bad + k + 2, ph + k + 1); s2 = NULL; r = polyseed_decode(bad, (polyseed_coin)id, NULL, &s2); T(slot, (uint64_t)r); if (r == 0) polyseed_free(s2);       /* lang_out is optional */
+          s2 = NULL; r = polyseed_decode(ph, (polyseed_coin)id, NULL, &s2); T(slot, (uint64_t)r); if (r == 0) polyseed_free(s2); }
         polyseed_free(s);
     } else if (HARNESS_ == 2) {          /* load, crypt, keygen, encode (Japanese), decode_explicit, free */
         r = polyseed_load(PRE_ST[id], &s); T(slot, (uint64_t)r);
@@ -34,6 +35,11 @@ static void script_h(int HARNESS_, int id, int slot) {
         size_t n = polyseed_encode(s, polyseed_get_lang(1), 5, ph); Tbuf(slot, ph, n + 1);
         r = polyseed_decode_explicit(ph, 5, polyseed_get_lang(1), &s2); T(slot, (uint64_t)r);
         if (r == 0) { T(slot, polyseed_get_birthday(s2)); T(slot, polyseed_get_feature(s2, 7)); T(slot, (uint64_t)polyseed_is_encrypted(s2)); polyseed_free(s2); }
+        polyseed_free(s);
+    } else if (HARNESS_ == 6) {         /* optional allocator entries left NULL (libc malloc/free): create, free, create again, store, free */
+        r = polyseed_create(0, &s); T(slot, (uint64_t)r); polyseed_store(s, st); Tbuf(slot, st, 32); polyseed_free(s);
+        r = polyseed_create(1, &s); T(slot, (uint64_t)r); polyseed_store(s, st); Tbuf(slot, st, 32);
+        r = polyseed_load(st, &s2); T(slot, (uint64_t)r); if (r == 0) { T(slot, polyseed_get_feature(s2, 7)); polyseed_free(s2); }
         polyseed_free(s);
     } else if (HARNESS_ == 5) {         /* three threads, each a full create / encode / decode(auto) / free cycle in its own accent language */
         static const int L5[3] = { 3, 4, 0 };
